@@ -11,7 +11,9 @@
       tetrahedron and faces, origin strictly outside: exact);
     - original, 1-4 points: [C18_orig_backup_valid] -- all real inputs: weights, order, subset;
       2 points: [C18_orig_segment_optimal] -- all real inputs: minimum-norm point;
-      3 affinely independent points: [C18_orig_face_optimal_partial] -- minimum-norm point;
+      3 points: [C18_orig_face_optimal] -- ALL real inputs: minimum-norm point (Johnson's theorem);
+      4 points: [C18_orig_tetra_optimal_partial] -- non-degenerate tetrahedron with the origin not
+      strictly inside, or with all four cofactors > EPSILON: minimum-norm point;
     - both solvers, every configuration of 1-4 points with coordinates in {-1,0,1}
       (551 880 configurations, all degeneracies and region boundaries): exact optimum, subset,
       weights: [C18_jolt_lattice_exact], [C18_jolt_lattice4_exact], [C18_orig_lattice_exact],
@@ -21,16 +23,15 @@
     Missing (not proved for all real inputs): Jolt degenerate-triangle arm beyond "best of three
     edges up to EPSILON"; Jolt tetrahedron with the origin inside but within the EPSILON band of a
     plane test (false there: [C18_jolt_refuted]), degenerate tetrahedra (mixed orientation signs)
-    and degenerate faces; global optimality of the original solver's result for 4 points and for
-    affinely dependent triples (Johnson's theorem: the carrier of the optimum has all cofactors
-    positive, and a candidate with all cofactors positive is the projection on its affine hull)
-    -- false for small tetrahedra: [C18_orig_backup_refuted].
+    and degenerate faces; the original solver on degenerate (flat) tetrahedra, and with the origin
+    strictly inside a tetrahedron one of whose degree-6 cofactors is <= EPSILON -- false there:
+    [C18_orig_backup_refuted].
     What judges the IMPLEMENTATION on every generated input: the certificates, whose soundness is
     [C18_kkt_cert_sound], [C18_cert_z_sound], [C18_cert_z_min_norm], [C18_bary_z_sound]. *)
 From Coq Require Import List NArith ZArith QArith Reals Lra.
 From D3 Require Import Base.Ops Base.Vec Base.RVec Spec.Convex Spec.ConvexHull
   Model.Simplex Model.SimplexOrig Model.SimplexRun Checker.Kkt Checker.KktZ
-  Proofs.SimplexLine Proofs.SimplexTriangle Proofs.SimplexTetra Proofs.SimplexOrig Proofs.SimplexOrigFace Proofs.SimplexLattice
+  Proofs.SimplexLine Proofs.SimplexTriangle Proofs.SimplexTetra Proofs.SimplexOrig Proofs.SimplexOrigCand Proofs.SimplexOrigFace Proofs.SimplexOrigTetra Proofs.SimplexLattice
   Proofs.SimplexLattice4 Proofs.SimplexRefuted.
 Import ListNotations.
 Local Open Scope R_scope.
@@ -199,23 +200,38 @@ Theorem C18_orig_segment_optimal : forall y0 y1 : V3R,
 Proof. exact backup_segment_optimal. Qed.
 Print Assumptions C18_orig_segment_optimal.
 
-(** three affinely independent points: the returned point is the minimum-norm point of the
-    triangle, all such real inputs (Johnson's theorem for the face).  PARTIAL: collinear triples and
-    duplicates are covered only on the lattice *)
-Theorem C18_orig_face_optimal_partial : forall a b c : V3R,
-  let g11 := dot (vsub b a) (vsub b a) in
-  let g12 := dot (vsub b a) (vsub c a) in
-  let g22 := dot (vsub c a) (vsub c a) in
-  0 < g11 * g22 - g12 * g12 ->
+(** three points: the returned point is a minimum-norm point of the triangle -- ALL real inputs
+    (affinely independent, collinear, duplicates): Johnson's theorem for the face *)
+Theorem C18_orig_face_optimal : forall a b c : V3R,
   let r := @backup_procedure_face R ROps [a; b; c] in
   is_min_norm [a; b; c] (s_v (b_sol r)).
-Proof. exact backup_face_optimal_partial. Qed.
-Print Assumptions C18_orig_face_optimal_partial.
+Proof. exact backup_face_optimal. Qed.
+Print Assumptions C18_orig_face_optimal.
 
-Example C18_orig_face_nonvacuous :
-  let a := V 1 0 0 in let b := V 0 1 0 in let c := V 0 0 1 in
-  0 < dot (vsub b a) (vsub b a) * dot (vsub c a) (vsub c a) - dot (vsub b a) (vsub c a) * dot (vsub b a) (vsub c a).
-Proof. cbv zeta. vunfold. cbn [vx vy vz]. lra. Qed.
+(** the lemma behind it: of Johnson's seven candidates of ANY triangle one is eligible (or a
+    vertex) and is a minimum-norm point of the triangle *)
+Theorem C18_tri_cand_exists : forall a b c : V3R, exists v, cand_of a b c v /\ kkt3 a b c v.
+Proof. exact tri_cand_exists. Qed.
+Print Assumptions C18_tri_cand_exists.
+
+(** four points, non-degenerate tetrahedron: the returned point is the minimum-norm point if the
+    origin is not strictly inside, or if all four degree-6 cofactors exceed EPSILON.
+    PARTIAL with respect to all inputs: excluded are the origin strictly inside with a cofactor
+    <= EPSILON (the result is wrong there: C18_orig_backup_refuted) and degenerate tetrahedra *)
+Theorem C18_orig_tetra_optimal_partial : forall y0 y1 y2 y3 : V3R,
+  let v6 := V6 y0 y1 y2 y3 in
+  let e := @EPSILON_O R ROps in
+  v6 <> 0 ->
+  ((- sp3 y0 y1 y2 y3 / v6 <= 0 \/ - sp1 y0 y1 y2 y3 / v6 <= 0 \/ - sp2 y0 y1 y2 y3 / v6 <= 0 \/ - sp0 y0 y1 y2 y3 / v6 <= 0) \/
+   (let '(c0, c1, c2, c3) := tet_cof y0 y1 y2 y3 in e < c0 /\ e < c1 /\ e < c2 /\ e < c3)) ->
+  is_min_norm [y0; y1; y2; y3] (s_v (b_sol (@backup_procedure_tetrahedron R ROps [y0; y1; y2; y3]))).
+Proof. exact backup_tetra_optimal_partial. Qed.
+Print Assumptions C18_orig_tetra_optimal_partial.
+
+Example C18_orig_tetra_nonvacuous :
+  let y0 := V 1 0 0 in let y1 := V 2 0 0 in let y2 := V 1 1 0 in let y3 := V 1 0 1 in
+  V6 y0 y1 y2 y3 <> 0 /\ - sp1 y0 y1 y2 y3 / V6 y0 y1 y2 y3 <= 0.
+Proof. cbv zeta. unfold V6, sp1. vunfold. cbn [vx vy vz]. split; lra. Qed.
 
 Example C18_orig_backup_nonvacuous :
   exists r, @backup_procedure R ROps [V 1 0 0; V 0 1 0; V 0 0 1; V 1 1 1] = Some r.
